@@ -83,10 +83,6 @@ theorem IntM.comp {U V X Y Z : Matrix ι ι α} {a b : Bool} (h1 : IntM U X Y a)
   rw [Matrix.mul_assoc, h1, Matrix.mul_smul, ← Matrix.mul_assoc, h2, Matrix.smul_mul, smul_smul,
     Matrix.mul_assoc, sgn_xor]
 
-/-- the model's loops accumulate the flag as `flip != fl` starting from any `flip` -/
-theorem IntM.pow {U : Matrix ι ι α} (rule : Matrix ι ι α → Matrix ι ι α → Bool → Prop) :
-    True := trivial
-
 /-- conjugation form from the intertwining form, for `U * Uᴴ = 1` -/
 theorem conj_of_intM {U X Y Ud : Matrix ι ι α} {a : Bool} (hU : U * Ud = 1) (h : IntM U X Y a) :
     U * X * Ud = (sgn a : α) • Y := by
@@ -95,7 +91,7 @@ theorem conj_of_intM {U X Y Ud : Matrix ι ι α} {a : Bool} (hU : U * Ud = 1) (
 
 theorem intM_of_conj {U X Y Ud : Matrix ι ι α} {a : Bool} (hU : U * Ud = 1)
     (h : U * X * Ud = (sgn a : α) • Y) : IntM U X Y a := by
-  have hU' : Ud * U = 1 := Matrix.mul_eq_one_comm.1 hU
+  have hU' : Ud * U = 1 := mul_eq_one_comm.1 hU
   unfold IntM
   have : U * X = U * X * Ud * U := by rw [Matrix.mul_assoc (U * X), hU', Matrix.mul_one]
   rw [this, h, Matrix.smul_mul]
@@ -142,7 +138,7 @@ theorem intertwines_iff {n k : Nat} (hn : n = 2 ^ k) {M : LMat α} (hM : WF n n 
 
 theorem isConj_iff {n k : Nat} (hn : n = 2 ^ k) {M : LMat α} (hM : WF n n M) {ops ops' : List Pauli}
     (ho : ops.length = k) (ho' : ops'.length = k) (flip : Bool) :
-    IsConj A M ops flip ops' ↔
+    Clifford.IsConj A M ops flip ops' ↔
       toM n n M * toM n n (pauliMat A ops) * adjM (toM n n M) A =
         (sgn flip : α) • toM n n (pauliMat A ops') := by
   subst hn
@@ -150,7 +146,7 @@ theorem isConj_iff {n k : Nat} (hn : n = 2 ^ k) {M : LMat α} (hM : WF n n M) {o
   have hP := wf_pauliMat' (α := α) (A := A) ho
   have hP' := wf_pauliMat' (α := α) (A := A) ho'
   have hAd := wf_adjoint (A := A) hM
-  unfold IsConj conjBy
+  unfold Clifford.IsConj conjBy
   constructor
   · intro h
     have := congrArg (toM (2 ^ k) (2 ^ k)) h
@@ -173,9 +169,93 @@ theorem isUnitary_iff {k : Nat} {M : LMat α} :
 /-- For a unitary matrix the two forms of exactness coincide. -/
 theorem isConj_iff_intertwines {k : Nat} {M : LMat α} (hU : IsUnitary A k M) {ops ops' : List Pauli}
     (ho : ops.length = k) (ho' : ops'.length = k) (flip : Bool) :
-    IsConj A M ops flip ops' ↔ Intertwines A M ops flip ops' := by
+    Clifford.IsConj A M ops flip ops' ↔ Intertwines A M ops flip ops' := by
   obtain ⟨hM, hUU⟩ := isUnitary_iff.1 hU
   rw [isConj_iff rfl hM ho ho', intertwines_iff rfl hM ho ho']
   exact ⟨intM_of_conj hUU, conj_of_intM hUU⟩
+
+
+/-! ## `pauliMat (a ++ b) = pauliMat a ⊗ pauliMat b` -/
+
+theorem kronecker_one_left {n m : Nat} {B : LMat α} (hB : WF n m B) (hn : 0 < n) :
+    kronecker ([[1]] : LMat α) B = B := by
+  have h1 : WF 1 1 ([[1]] : LMat α) := by simp [WF]
+  have hk := wf_kronecker h1 hB (by decide) hn
+  rw [Nat.one_mul, Nat.one_mul] at hk
+  apply ext_get hk hB
+  intro i hi j hj
+  have := get_kronecker h1 hB (by decide) hn (i := i) (j := j) (by omega) (by omega)
+  rw [this, Nat.div_eq_of_lt hi, Nat.mod_eq_of_lt hi]
+  by_cases hm : m = 0
+  · subst hm; omega
+  · rw [Nat.div_eq_of_lt hj, Nat.mod_eq_of_lt hj]
+    simp [LMat.get]
+
+theorem kronecker_assoc {s a b : Nat} {S X Y : LMat α} (hS : WF s s S) (hX : WF a a X) (hY : WF b b Y)
+    (hs : 0 < s) (ha : 0 < a) (hb : 0 < b) :
+    kronecker (kronecker S X) Y = kronecker S (kronecker X Y) := by
+  have hSX := wf_kronecker hS hX hs ha
+  have hXY := wf_kronecker hX hY ha hb
+  have hL := wf_kronecker hSX hY (Nat.mul_pos hs ha) hb
+  have hR := wf_kronecker hS hXY hs (Nat.mul_pos ha hb)
+  rw [← Nat.mul_assoc] at hR
+  apply ext_get hL hR
+  intro i hi j hj
+  have hi' : i < s * (a * b) := by rw [← Nat.mul_assoc]; exact hi
+  have hj' : j < s * (a * b) := by rw [← Nat.mul_assoc]; exact hj
+  have hdi : i / b < s * a := by rw [Nat.div_lt_iff_lt_mul hb]; exact hi
+  have hdj : j / b < s * a := by rw [Nat.div_lt_iff_lt_mul hb]; exact hj
+  have hab : 0 < a * b := Nat.mul_pos ha hb
+  rw [get_kronecker hSX hY (Nat.mul_pos hs ha) hb hi hj, get_kronecker hS hX hs ha hdi hdj,
+    get_kronecker hS hXY hs hab hi' hj',
+    get_kronecker hX hY ha hb (Nat.mod_lt _ hab) (Nat.mod_lt _ hab)]
+  have e1 : ∀ x, x / b / a = x / (a * b) := fun x => by rw [Nat.div_div_eq_div_mul, Nat.mul_comm]
+  have e2 : ∀ x, x % (a * b) / b = x / b % a := fun x => by
+    rw [Nat.mul_comm a b, Nat.mod_mul_right_div_self]
+  have e3 : ∀ x, x % (a * b) % b = x % b := fun x => by
+    rw [Nat.mul_comm a b, Nat.mod_mul_right_mod]
+  rw [e1, e1, e2, e2, e3, e3]
+  ring
+
+theorem pauliMat_append : ∀ (a b : List Pauli),
+    (pauliMat A (a ++ b) : LMat α) = kronecker (pauliMat A a) (pauliMat A b)
+  | [], b => by
+    rw [List.nil_append]
+    exact (kronecker_one_left (wf_pauliMat b) (Nat.pow_pos (by decide))).symm
+  | p :: a, b => by
+    rw [List.cons_append]
+    show kronecker (sigma A p) (pauliMat A (a ++ b)) = kronecker (kronecker (sigma A p) (pauliMat A a)) (pauliMat A b)
+    rw [pauliMat_append a b]
+    exact (kronecker_assoc (wf_sigma p) (wf_pauliMat a) (wf_pauliMat b) (by decide) (Nat.pow_pos (by decide))
+      (Nat.pow_pos (by decide))).symm
+
+/-- Kronecker products of exact rules: signs xor, strings concatenate -/
+theorem kron_intertwines {k0 k1 : Nat} {M0 M1 : LMat α} (h0 : WF (2 ^ k0) (2 ^ k0) M0)
+    (h1 : WF (2 ^ k1) (2 ^ k1) M1) {a a' b b' : List Pauli} (la : a.length = k0) (la' : a'.length = k0)
+    (lb : b.length = k1) (lb' : b'.length = k1) {f0 f1 : Bool}
+    (i0 : Intertwines A M0 a f0 a') (i1 : Intertwines A M1 b f1 b') :
+    Intertwines A (kronecker M0 M1) (a ++ b) (f0 != f1) (a' ++ b') := by
+  have hp0 : 0 < 2 ^ k0 := Nat.pow_pos (by decide)
+  have hp1 : 0 < 2 ^ k1 := Nat.pow_pos (by decide)
+  have hn : 2 ^ k0 * 2 ^ k1 = 2 ^ (k0 + k1) := (Nat.pow_add 2 k0 k1).symm
+  rw [intertwines_iff hn (wf_kronecker h0 h1 hp0 hp1) (by simp [la, lb]) (by simp [la', lb']),
+    pauliMat_append, pauliMat_append,
+    toM_kronecker h0 h1 hp0 hp1, toM_kronecker (wf_pauliMat' la) (wf_pauliMat' lb) hp0 hp1,
+    toM_kronecker (wf_pauliMat' la') (wf_pauliMat' lb') hp0 hp1]
+  exact IntM.reindex _ (IntM.kron ((intertwines_iff rfl h0 la la' f0).1 i0) ((intertwines_iff rfl h1 lb lb' f1).1 i1))
+
+/-- sequential composition: `B` after `M` -/
+theorem mul_intertwines {k : Nat} {M B : LMat α} (hM : WF (2 ^ k) (2 ^ k) M) (hB : WF (2 ^ k) (2 ^ k) B)
+    {a b c : List Pauli} (la : a.length = k) (lb : b.length = k) (lc : c.length = k) {f0 f1 : Bool}
+    (i0 : Intertwines A M a f0 b) (i1 : Intertwines A B b f1 c) :
+    Intertwines A (LMat.mul B M) a (f0 != f1) c := by
+  have hp : 0 < 2 ^ k := Nat.pow_pos (by decide)
+  rw [intertwines_iff rfl (wf_mul hB hM hp) la lc, toM_mul hB hM hp]
+  exact IntM.comp ((intertwines_iff rfl hM la lb f0).1 i0) ((intertwines_iff rfl hB lb lc f1).1 i1)
+
+theorem identity_intertwines {k : Nat} {a : List Pauli} (la : a.length = k) :
+    Intertwines A (LMat.identity (2 ^ k) : LMat α) a false a := by
+  rw [intertwines_iff rfl (wf_identity _) la la, toM_identity]
+  exact IntM.one _
 
 end Q1t.Proofs.ConjBridge
